@@ -253,3 +253,81 @@ pub fn add_shadow_import(p: &mut Program, rng: &mut Rng) -> bool {
     }
     true
 }
+
+/// Rec binders named like something used earlier in the same statement: in
+/// `let f x = { 'b x, 'a (rec x { 'c x }) };` the last `x` denotes the rec binder, the first one the
+/// parameter. A rec binder of a statement takes the name of a declaration or parameter that the statement uses
+/// in front of the `rec` term, where nothing in the body of the `rec` would be captured by that. Whatever
+/// remembers where a name was found across the opening of a scope binds the inner use to the outer name.
+/// Returns the number of binders renamed.
+pub fn add_rec_shadows(p: &mut Program, rng: &mut Rng) -> (usize, usize) {
+    fn captures(body: &E, name: &str, id: RecId) -> bool {
+        let mut bad = false;
+        body.visit(&mut |x| match x {
+            E::Var { qual: None, name: n, target } if n == name && *target != Target::Rec(id) => bad = true,
+            E::Rec { binder, .. } if binder == name => bad = true,
+            _ => {}
+        });
+        bad
+    }
+    fn rename_uses(e: &mut E, id: RecId, to: &str) {
+        if let E::Var { name, target: Target::Rec(r), .. } = e {
+            if *r == id {
+                *name = to.to_owned();
+            }
+        }
+        for c in e.children_mut() {
+            rename_uses(c, id, to);
+        }
+    }
+    // seen: (name, is a parameter); returns (binders named like a declaration, binders named like a parameter)
+    fn walk(e: &mut E, seen: &mut Vec<(String, bool)>, rng: &mut Rng) -> (usize, usize) {
+        let mut n = (0, 0);
+        match e {
+            E::Var {
+                qual: None,
+                name,
+                target: target @ (Target::Decl(_) | Target::Param(..)),
+            } if !name.starts_with('@') && !seen.iter().any(|(s, _)| s == name) => seen.push((name.clone(), matches!(target, Target::Param(..)))),
+            E::Rec { binder, id, body } => {
+                let mut cands: Vec<(String, bool)> = seen.iter().filter(|(c, _)| c != binder && !captures(body, c, *id)).cloned().collect();
+                // a parameter rather than a declaration, mostly: the evaluator finds parameters by name
+                if cands.iter().any(|c| c.1) && rng.chance(3, 4) {
+                    cands.retain(|c| c.1);
+                }
+                if !cands.is_empty() && rng.chance(3, 4) {
+                    let (c, is_param) = rng.pick(&cands).clone();
+                    rename_uses(body, *id, &c);
+                    *binder = c;
+                    if is_param {
+                        n.1 += 1;
+                    } else {
+                        n.0 += 1;
+                    }
+                }
+            }
+            _ => {}
+        }
+        for c in e.children_mut() {
+            let k = walk(c, seen, rng);
+            n = (n.0 + k.0, n.1 + k.1);
+        }
+        n
+    }
+    let mut n = (0, 0);
+    for d in 0..p.decls.len() {
+        let mut seen = Vec::new();
+        let k = walk(&mut p.decls[d].rhs, &mut seen, rng);
+        n = (n.0 + k.0, n.1 + k.1);
+    }
+    for m in p.modules.iter_mut() {
+        for s in m.stmts.iter_mut() {
+            if let Stmt::Res { e } = s {
+                let mut seen = Vec::new();
+                let k = walk(e, &mut seen, rng);
+                n = (n.0 + k.0, n.1 + k.1);
+            }
+        }
+    }
+    n
+}
